@@ -586,7 +586,7 @@ class Transformer:
         params = init.params[1:]
         feeding = [p for p in params + [a.arg for a in init.node.args.kwonlyargs] if p in info["params"]]
         if not feeding:
-            return "undecided", f"field {field} is not initialised from a constructor parameter"
+            return self._post_fill_dependence(f, call, cls, field, inputs)
         if any(isinstance(a, ast.Starred) for a in call.args) or any(k.arg is None for k in call.keywords):
             return "undecided", "starred constructor arguments"
         arg_exprs = []
@@ -633,3 +633,49 @@ class Transformer:
         if not arg_exprs:
             return "missing", f"constructor parameter {'/'.join(feeding)} not passed (default used)"
         return "constant", "argument does not depend on the input's field"
+
+    def _post_fill_dependence(self, f: FuncInfo, call: ast.Call, cls: str, field: str, inputs: List[str]):
+        """The field is allocated inside __init__ and filled afterwards through
+        the new object's property (``new.constants.update(old.constants)``)."""
+        ix, T = self.ix, self.T
+        fl = self.flows[f.qualname]
+        st = fl.enclosing_stmt(call)
+        var = None
+        if isinstance(st, ast.Assign) and st.value is call and len(st.targets) == 1 and isinstance(st.targets[0], ast.Name):
+            var = st.targets[0].id
+        if var is None:
+            return "undecided", "constructed object is not bound to a local name"
+        hier = set(ix.mro(cls)) | set(ix.subclasses(cls))
+        fills = []
+        for root, vals, node in fl.mutations:
+            if root != var:
+                continue
+            # first attribute after the root variable
+            expr = node.value.func.value if isinstance(node, ast.Expr) else node
+            chain = []
+            x = expr
+            while isinstance(x, (ast.Attribute, ast.Subscript)):
+                if isinstance(x, ast.Attribute):
+                    chain.append(x.attr)
+                x = x.value
+            if not chain:
+                continue
+            first = chain[-1]
+            cov = self.member_fields(cls, first)
+            if field in cov:
+                fills.append((node, vals))
+        if not fills:
+            return "missing", f"the new {ix.classes[cls].name}'s {field} is never filled"
+        for node, vals in fills:
+            for v in vals:
+                ids, _ = fl.depends(v)
+                for n in walk_no_nested(f.node):
+                    if id(n) not in ids:
+                        continue
+                    if isinstance(n, ast.Attribute) and isinstance(n.ctx, ast.Load):
+                        rt = {t for t in T.types_of(n.value) if t in ix.classes}
+                        if (rt & hier) or (isinstance(n.value, ast.Name) and n.value.id in inputs):
+                            cov = self.member_fields(cls, n.attr)
+                            if field in cov or "*" in cov:
+                                return "data", ""
+        return "constant", f"the statements that fill {field} do not read the input's {field}"
